@@ -131,7 +131,9 @@ func genLogRecord(t *rapid.T, idx int) (LogRecord, map[string]string) {
 	if chance(t, "hexlook", 6) {
 		name = pick(t, "hexlookv", []string{"DEADBEEF", "ABCDEF", "0123", "CAFE", "A"}) // values that merely look like hex: the kernel quotes them
 	}
-	fs = append(fs, fld{"name", name, enc(name)})
+	if !chance(t, "noname", 6) { // signal, ptrace and network records carry no name
+		fs = append(fs, fld{"name", name, enc(name)})
+	}
 	// unique token in comm, possibly hostile
 	comm := fmt.Sprintf("tok%dq", idx)
 	if hostile && chance(t, "commhost", 3) {
